@@ -76,29 +76,8 @@ class Sym(Val):
         return 'Sym(%s)' % self.text
 
 
-class DictV(Sym):
-    """A dict display (or a module / class constant bound to one): renders like the opaque expression it was before, but a lookup
-    with a constant key among constant keys is resolved (entries: [(key Val, value Val)])."""
-    def __init__(self, text, entries):
-        Sym.__init__(self, text)
-        self.entries = entries
-
-
 def _is_const(v):
     return isinstance(v, Const) or (isinstance(v, ListV) and all(_is_const(e) for e in v.elems))
-
-
-def dict_lookup(d, key, st):
-    """(found?, value) for a constant key in a DictV whose keys are all constant and which was not stored into; None = not decidable"""
-    if not isinstance(d, DictV) or not _is_const(key) or not all(k is not None and _is_const(k) for k, v in d.entries):
-        return None
-    if any(p.startswith(d.text + '[') for p in st.env):
-        return None
-    kt = render(key)
-    for k, v in d.entries:
-        if render(k) == kt:
-            return True, v
-    return False, None
 
 
 class Bytes(Val):
@@ -136,6 +115,26 @@ class EachV(Val):
     """Elements appended to a list once per iteration of a summarised loop."""
     def __init__(self, var, coll, elems):
         self.var, self.coll, self.elems = var, coll, list(elems)
+
+
+class DictV(Sym):
+    """A dict literal with constant keys: still an opaque symbol by its text, but lookups by a constant key are decided."""
+    def __init__(self, text, pairs):
+        Sym.__init__(self, text)
+        self.pairs = pairs          # [(Const key, Val value)]
+
+    def lookup(self, key):
+        """-> value Val, None when the key is certainly absent, or False when undecidable."""
+        if not _is_const(key):
+            return False
+        for k, v in self.pairs:
+            try:
+                if (k.value == key.value) if isinstance(k, Const) and isinstance(key, Const) else \
+                        (not isinstance(k, Const) and not isinstance(key, Const) and render(k) == render(key)):      # constant tuples
+                    return v
+            except Exception:
+                return False
+        return None
 
 
 class FuncV(Val):
@@ -484,6 +483,7 @@ class State(object):
         self.hashes = []     # (alg, items, lineno) for every digest taken on this path
         self.bound = {}      # canonical bound-variable name ($k) -> text of the collection it ranges over
         self.filters = {}    # canonical bound-variable name ($k) -> filter text fused into its iteration (`for x in (y for y in C if f)`)
+        self.loops = {}      # $k of a summarised loop -> (iterable text incl. fused filter, [(facts taken, {local: value}, new calls, status)])
 
     def fork(self):
         s = State()
@@ -496,6 +496,7 @@ class State(object):
         s.hashes = list(self.hashes)
         s.bound = dict(self.bound)
         s.filters = dict(self.filters)
+        s.loops = dict(self.loops)
         s.ret = self.ret
         s.raised = self.raised
         return s
@@ -517,9 +518,8 @@ class Scenario(object):
     """Finite facts a path depends on."""
     def __init__(self, name='', bind=None, axioms=None, inline=None, inline_props=None, max_depth=3, self_cls=None,
                  args=None, unroll=None, oracle=None, forward_stores=True, model_del=True, join_unknown=False,
-                 decide_filters=False, raises=None, tables=False):
+                 canonical_objs=False, decide_filters=False, raises=None, extended=False):
         self.name = name
-        self.tables = tables              # decide lookups with a constant key in dict displays / class / module table constants (DictV)
         self.bind = bind or {}            # dotted path -> Val
         self.axioms = axioms or {}        # normalised condition text -> bool
         self.inline = inline              # callable(FunctionInfo) -> bool, or None = default policy
@@ -532,6 +532,9 @@ class Scenario(object):
         self.forward_stores = forward_stores   # False for parse methods: attribute stores go through property setters
         self.model_del = model_del        # del buf[:n] rebinds buf to the remaining octets (False for reader-sequence extraction)
         self.join_unknown = join_unknown  # undecided `if`: run both arms and join the normal exits (call/store sets are united)
+        self.canonical_objs = canonical_objs   # locally constructed objects are named <Class> / <Class#k> instead of after their local variable
+        self.extended = extended          # opt-in value models whose result TEXT differs from the opaque rendering other rules read:
+                                          # lookups in dict displays with constant keys are decided, <int>.to_bytes(n, 'big') is INT(n; x)
         self.decide_filters = decide_filters   # comprehension filters the scenario decides are applied (True: dropped, False: empty result)
         self.raises = raises              # callable(call text) -> exception text | None: calls the scenario says raise (the statement
                                           # ends the path with status 'raise' in the state reached so far; an enclosing try may catch it)
@@ -754,7 +757,11 @@ class Frame(object):
         rhs_names = frozenset(n.id for n in ast.walk(rhs) if isinstance(n, ast.Name)) if isinstance(rhs, ast.AST) else frozenset()
         if isinstance(target, ast.Name):
             if isinstance(v, Obj) and v.name.startswith('<new'):
-                v = Obj(target.id, v.cls, v.text)
+                oname = target.id
+                if self.sc.canonical_objs and v.cls is not None:
+                    k = 1 + len({x.name for x in st.env.values() if isinstance(x, Obj) and x.cls is v.cls and x.name.startswith('<' + v.cls.name)})
+                    oname = '<%s>' % v.cls.name if k == 1 else '<%s#%d>' % (v.cls.name, k)
+                v = Obj(oname, v.cls, v.text)
             st.env[target.id] = v
             st.events.append(('assign', target.id, render(event_val if event_val is not None else v), getattr(node, 'lineno', 0), rhs_names))
         elif isinstance(target, (ast.Tuple, ast.List)):
@@ -986,6 +993,7 @@ class Frame(object):
             if ' if ' in colltext:
                 st.filters[self._bname(node)] = colltext.split(' if ', 1)[1]
         nyield = len(st.yields)
+        entry_env = {k: render(v) for k, v in st.env.items() if '.' not in k and '[' not in k} if target is not None else {}
         body = self.block(node.body, st)
         if getattr(self.sc, 'loop_observer', None) is not None:
             # rules that reason about one iteration (which paths skip / attach / file) see the paths before they are merged
@@ -1014,6 +1022,15 @@ class Frame(object):
             return outs
         # merge the normal paths of one iteration into a single summarised state
         base = normal[0]
+        if target is not None:
+            # what each path through ONE iteration decided, bound and called (the facts themselves are dropped from the summary)
+            rec = []
+            for s, status in body:
+                if status in ('normal', 'continue', 'break'):
+                    ch = {k: render(v) for k, v in s.env.items() if '.' not in k and '[' not in k and entry_env.get(k) != render(v)}
+                    rec.append(([f for f in s.facts if f not in before.facts], ch, s.calls[len(before.calls):], status))
+            base.loops = dict(before.loops)
+            base.loops[self._bname(node)] = (colltext, rec)
         for name, old in before.env.items():
             if isinstance(old, (Bytes, Hasher)):
                 deltas = []
@@ -1042,6 +1059,10 @@ class Frame(object):
                     base.env[name] = Bytes(old.items + [('EACH', vartext, colltext + filt, inner)])
                 else:
                     base.env[name] = Hasher(old.alg, old.items + [('EACH', vartext, colltext + filt, inner)])
+            elif isinstance(old, Const) and type(old.value) is int and vartext and \
+                    all(render(s.env.get(name, old)) == '(%s + %s)' % (render(old), vartext) for s in normal):
+                # total = k; for x in coll: total += x   is   k + sum(coll)
+                base.env[name] = Sym('sum(%s)' % colltext if old.value == 0 else '(%d + sum(%s))' % (old.value, colltext))
             elif isinstance(old, ListV):
                 grown = []
                 for s in normal:
@@ -1097,7 +1118,24 @@ class Frame(object):
                 if c not in base.stores:
                     base.stores.append(c)
         base.facts = [f for f in base.facts if f in before.facts]
+        # locals first bound on another path of the iteration are bound after the loop as well
+        for s in normal[1:]:
+            for k, v in s.env.items():
+                if k not in base.env:
+                    base.env[k] = v
         # names (re)bound in the body but not accumulators become loop-carried symbols only if they differ
+        if node.orelse and any(status == 'break' for _, status in body):
+            brk = base.fork()                           # left by `break`: the else clause is skipped
+            bn = self._bname(node)
+            for s, status in body:                      # ... with the locals as the breaking path left them
+                if status == 'break' and s is not base:
+                    for k, v in s.env.items():
+                        if '.' not in k and '[' not in k and not isinstance(v, (Bytes, Hasher, ListV)) and entry_env.get(k) != render(v):
+                            brk.env[k] = v
+            if bn in brk.loops:
+                brk.loops[bn] = (brk.loops[bn][0], [r for r in brk.loops[bn][1] if r[3] == 'break'])
+                base.loops[bn] = (base.loops[bn][0], [r for r in base.loops[bn][1] if r[3] != 'break'])
+            outs.append((brk, 'normal'))
         outs.extend(self.block(node.orelse, base))
         return outs
 
@@ -1237,9 +1275,10 @@ class Frame(object):
             return None
         if isinstance(op, (ast.In, ast.NotIn)):
             neg = isinstance(op, ast.NotIn)
-            hit = dict_lookup(r, l, st) if self.sc.tables else None
-            if hit is not None:
-                return (not hit[0]) if neg else hit[0]
+            if isinstance(r, DictV) and self.sc.extended:
+                hit = r.lookup(l)
+                if hit is not False:
+                    return (hit is None) if neg else (hit is not None)
             if isinstance(l, Const) and isinstance(r, ListV) and all(isinstance(e, Const) for e in r.elems):
                 res = any(e.value == l.value for e in r.elems)
                 return (not res) if neg else res
@@ -1343,6 +1382,10 @@ class Frame(object):
         if node.id in st.env:
             v = st.env[node.id]
             return v
+        imp = self.module.imports.get(node.id)
+        if imp is not None and imp[0] in STDLIB_CANON and (imp[1] is None and imp[0] != node.id or imp[1] not in (None, node.id, '*')):
+            # `import zlib as z` / `from zlib import MAX_WBITS as W`: the canonical dotted name
+            return Sym(imp[0] if imp[1] is None else '%s.%s' % (imp[0], imp[1]))
         if node.id in ('True', 'False', 'None'):
             return Const({'True': True, 'False': False, 'None': None}[node.id])
         r = self.prog.lookup(self.module, node.id)
@@ -1354,8 +1397,11 @@ class Frame(object):
             try:
                 return Const(ast.literal_eval(self.module.assigns[node.id]))
             except Exception:
-                if isinstance(self.module.assigns[node.id], ast.Dict) and len(self.module.assigns[node.id].keys) <= 64:
-                    return self.ev_Dict(self.module.assigns[node.id], State(), text=node.id)      # a table kept as a module constant
+                pass
+            if isinstance(self.module.assigns[node.id], ast.Lambda):
+                return self.ev_Lambda(self.module.assigns[node.id], State())      # NAME = lambda ...: a module-level function
+            if isinstance(self.module.assigns[node.id], (ast.Dict, ast.Tuple, ast.List, ast.Set, ast.UnaryOp, ast.BinOp)):
+                return self.ev(self.module.assigns[node.id], State(), quiet=True)   # a module-level table (e.g. {Enum.A: ClassA, ...})
         return Sym(node.id)
 
     def ev_Attribute(self, node, st):
@@ -1431,14 +1477,16 @@ class Frame(object):
 
     def _class_collection(self, cls, name, av, st, text=None):
         """Class-level NAME = {A, B} / frozenset({...}) / (A, B) of enum members, seen through an instance or the class."""
-        if isinstance(av, ast.Dict) and av.keys and len(av.keys) <= 64 and text is not None:
-            owner = next((c for c in cls.mro() if name in c.attrs), None)
-            if owner is not None:            # a table kept as a class constant: evaluated in the namespace of the class that defines it
-                fr = Frame(self.I, FunctionInfo(ast.parse('def _f(): pass').body[0], owner.module, owner), self.depth)
-                return fr.ev_Dict(av, State(), text=text)
         inner = av
         if isinstance(av, ast.Call) and dotted(av.func) in ('frozenset', 'set', 'tuple', 'list') and len(av.args) == 1:
             inner = av.args[0]
+        if isinstance(inner, ast.Dict) and inner.keys:
+            for c in cls.mro():
+                if name in c.attrs:
+                    fr = Frame(self.I, FunctionInfo(ast.parse('def _f(): pass').body[0], c.module, c), self.depth)
+                    dv = fr.ev(inner, State(), quiet=True)          # NAME = {Enum.A: ClassA, ...} in the class body: a lookup table
+                    return dv if isinstance(dv, DictV) else None
+            return None
         if not isinstance(inner, (ast.Set, ast.Tuple, ast.List)) or not inner.elts:
             return None
         owner = None
@@ -1482,7 +1530,22 @@ class Frame(object):
                 return Sym(ast.unparse(node))
         return Sym('%r.format(%s)' % (tmpl, ', '.join(render(a) for a in args)))
 
+    def _display(self, node, st):
+        out = []
+        for e in node.elts:
+            if isinstance(e, ast.Starred):
+                sv = self.ev(e.value, st)
+                if isinstance(sv, ListV) and not any(isinstance(x, EachV) for x in sv.elems):
+                    out.extend(sv.elems)            # (a, *(b, c)) is (a, b, c)
+                    continue
+                out.append(Sym('*' + render(sv)))
+            else:
+                out.append(self.ev(e, st))
+        return out
+
     def ev_Tuple(self, node, st):
+        if any(isinstance(e, ast.Starred) for e in node.elts):
+            return ListV(self._display(node, st), 'tuple')
         return ListV([self.ev(e, st) for e in node.elts], 'tuple')
 
     def ev_List(self, node, st):
@@ -1491,14 +1554,42 @@ class Frame(object):
     def ev_Set(self, node, st):
         return ListV([self.ev(e, st) for e in node.elts], 'set')
 
-    def ev_Dict(self, node, st, text=None):
-        parts, entries = [], []
+    def ev_Dict(self, node, st):
+        parts = []
         for k, v in zip(node.keys, node.values):
-            kv = self.ev(k, st, quiet=True) if k is not None else None
-            vv = self.ev(v, st, quiet=True)
-            entries.append((kv, vv))
-            parts.append('%s: %s' % (render(kv) if k is not None else '**', render(vv)))
-        return DictV(text or '{%s}' % ', '.join(parts), entries)
+            parts.append('%s: %s' % (self.text(k, st) if k is not None else '**', self.text(v, st)))
+        text = '{%s}' % ', '.join(parts)
+        if node.keys:
+            pairs = []
+            for k, v in zip(node.keys, node.values):
+                vv = self.ev(v, st, quiet=True)
+                if k is None:
+                    if not isinstance(vv, DictV):
+                        return Sym(text)
+                    pairs.extend(vv.pairs)          # {**d, ...} with a known d
+                else:
+                    pairs.append((self.ev(k, st, quiet=True), vv))
+            if all(_is_const(k) for k, _ in pairs):
+                return DictV(text, pairs)
+        return Sym(text)
+
+    def _dict_ctor(self, fname, args, kwargs):
+        """dict.fromkeys(<known keys>, v) / dict([(k, v), ...]) / dict(<known dict>) with constant keys -> DictV (else None)."""
+        if kwargs:
+            return None
+        pairs = None
+        if fname == 'dict.fromkeys' and 1 <= len(args) <= 2 and isinstance(args[0], ListV):
+            pairs = [(k, args[1] if len(args) == 2 else Const(None)) for k in args[0].elems]
+        elif fname == 'dict' and len(args) == 1 and isinstance(args[0], DictV):
+            pairs = list(args[0].pairs)
+        elif fname == 'dict' and len(args) == 1 and isinstance(args[0], ListV) and \
+                all(isinstance(e, ListV) and len(e.elems) == 2 for e in args[0].elems):
+            pairs = [(e.elems[0], e.elems[1]) for e in args[0].elems]
+        elif fname == 'dict' and len(args) == 1 and getattr(args[0], 'zipped', None) is not None:
+            pairs = list(args[0].zipped)
+        if pairs is None or not all(isinstance(k, Const) for k, _ in pairs):
+            return None
+        return DictV('%s(%s)' % (fname, ', '.join(render(a) for a in args)), pairs)
 
     def ev_Starred(self, node, st):
         return Sym('*' + self.text(node.value, st))
@@ -1588,6 +1679,17 @@ class Frame(object):
         return self._comp(node, st, '()')
 
     def ev_DictComp(self, node, st):
+        if len(node.generators) == 1 and not node.generators[0].ifs:
+            # {k: v for k, v in <known pairs>}: the table itself
+            itv = self.ev(node.generators[0].iter, st, quiet=True)
+            if isinstance(itv, ListV) and itv.elems and len(itv.elems) <= 64 and not any(isinstance(e, EachV) for e in itv.elems):
+                pairs = []
+                for e in itv.elems:
+                    s2 = st.fork()
+                    self.assign(node.generators[0].target, e, s2, node)
+                    pairs.append((self.ev(node.key, s2, quiet=True), self.ev(node.value, s2, quiet=True)))
+                if all(isinstance(k, Const) for k, _ in pairs):
+                    return DictV('{%s}' % ', '.join('%s: %s' % (render(k), render(v)) for k, v in pairs), pairs)
         return self._comp(node, st, '{}')
 
     def ev_IfExp(self, node, st):
@@ -1717,6 +1819,21 @@ class Frame(object):
         return Sym('(%s + %s)' % (render(l), render(r)))
 
     def binop(self, op, l, r):
+        if isinstance(op, ast.Mod) and isinstance(l, Bytes):
+            # b'%b..%b' % (a, b): the literal parts with the operands spliced in (only %b / %s conversions)
+            fits = merge_consts(l.items)
+            fmt = fits[0][1] if len(fits) == 1 and fits[0][0] == 'C' else None
+            ops = r.elems if isinstance(r, ListV) and r.kind == 'tuple' else [r]
+            if fmt is not None and b'%%' not in fmt:
+                parts = re.split(rb'%[bs]', fmt)
+                if len(parts) == len(ops) + 1 and not any(b'%' in p for p in parts) and not any(isinstance(o, EachV) for o in ops):
+                    out = []
+                    for p_, o in zip(parts, ops + [None]):
+                        if p_:
+                            out.append(('C', p_))
+                        if o is not None:
+                            out.extend(as_items(o))
+                    return Bytes(out)
         if isinstance(l, ListV) and isinstance(r, ListV) and l.kind == 'set' and r.kind == 'set' and \
                 isinstance(op, (ast.BitOr, ast.BitAnd, ast.Sub)):
             lt, rt = [render(e) for e in l.elems], [render(e) for e in r.elems]
@@ -1782,9 +1899,10 @@ class Frame(object):
                 return Bytes([mk_slice(merge_consts(base.items), lo, hi)])
             return Bytes([mk_slice(render(base), lo, hi)])
         idx = self.ev(sl, st)
-        hit = dict_lookup(base, idx, st) if self.sc.tables and isinstance(getattr(node, 'ctx', None), ast.Load) else None
-        if hit is not None and hit[0]:
-            return hit[1]
+        if isinstance(base, DictV) and self.sc.extended and isinstance(getattr(node, 'ctx', None), ast.Load):
+            hit = base.lookup(idx)
+            if hit is not None and hit is not False:
+                return hit
         if isinstance(base, ListV) and isinstance(idx, Const) and isinstance(idx.value, int):
             try:
                 return base.elems[idx.value]
@@ -1828,7 +1946,25 @@ class Frame(object):
 
     def _ev_Call(self, node, st):
         func = node.func
-        args = [self.ev(a, st) for a in node.args]
+        if isinstance(func, ast.Name) and func.id not in st.env and func.id in self.module.imports:
+            imod, iorig = self.module.imports[func.id]
+            if iorig is not None and imod in STDLIB_CANON and iorig != '*':
+                # `from binascii import hexlify as h; h(x)` is the call binascii.hexlify(x)
+                canon = ast.Call(func=ast.Attribute(value=ast.Name(id=imod, ctx=ast.Load()), attr=iorig, ctx=ast.Load()),
+                                 args=node.args, keywords=node.keywords)
+                ast.copy_location(canon, node)
+                ast.fix_missing_locations(canon)
+                return self._ev_Call(canon, st)
+        args = []
+        for a in node.args:
+            if isinstance(a, ast.Starred):
+                sv = self.ev(a.value, st)
+                if isinstance(sv, ListV) and not any(isinstance(e, EachV) for e in sv.elems):
+                    args.extend(sv.elems)       # f(x, *(a, b)) with a known tuple is f(x, a, b)
+                    continue
+                args.append(Sym('*' + render(sv)))
+            else:
+                args.append(self.ev(a, st))
         kwargs = {}
         for k in node.keywords:
             kwargs[k.arg or '**'] = self.ev(k.value, st)
@@ -1848,6 +1984,40 @@ class Frame(object):
                 not node.keywords and not func.keywords:
             items = [self.ev(ast.copy_location(ast.Subscript(value=node.args[0], slice=k, ctx=ast.Load()), node), st) for k in func.args]
             return items[0] if len(items) == 1 else ListV(items, 'tuple')
+        if fname in ('dict', 'dict.fromkeys') and not (fname == 'dict' and 'dict' in st.env):
+            dv = self._dict_ctor(fname, args, kwargs)
+            if dv is not None:
+                record(fname)
+                return dv
+        if fname == 'setattr' and len(args) == 3 and not kwargs and isinstance(args[1], Const) and isinstance(args[1].value, str) and \
+                re.match(r'^[A-Za-z_][A-Za-z0-9_]*$', args[1].value) and 'setattr' not in st.env:
+            # setattr(obj, '<constant name>', v) is the attribute assignment obj.<name> = v
+            record(fname)
+            tgt = ast.copy_location(ast.Attribute(value=node.args[0], attr=args[1].value, ctx=ast.Store()), node)
+            self.assign(tgt, args[2], st, node)
+            return Const(None)
+        if fname is not None and fname.startswith('operator.') and len(args) == 2 and not kwargs and fname[9:] in OPERATOR_FUNCS:
+            opn = OPERATOR_FUNCS[fname[9:]]()           # operator.or_(a, b) is a | b
+            return self.add(args[0], args[1]) if isinstance(opn, ast.Add) else self.binop(opn, args[0], args[1])
+        if fname in ('functools.partial', 'partial') and args and not isinstance(args[0], (Bytes, ListV)):
+            # partial(f, a, k=v): an opaque symbol by its text that remembers what it will call
+            record(fname)
+            pv = Sym('%s(%s)' % (fname, self._argtext(args, kwargs)))
+            pv.partial = (args[0], list(args[1:]), dict(kwargs))
+            return pv
+        pv = st.env.get(func.id) if isinstance(func, ast.Name) else (self.ev(func, st, quiet=True) if isinstance(func, (ast.Call, ast.Subscript)) else None)
+        if getattr(pv, 'partial', None) is not None:
+            target, pargs, pkw = pv.partial
+            allargs, allkw = pargs + args, dict(pkw, **kwargs)
+            if isinstance(target, (FuncV, LambdaV)):
+                record(render(target))
+                r = self._maybe_inline(target.fi, None, allargs, allkw, st, node, closure=target.closure_env, force=True)
+                if r is not None:
+                    return r
+            ft = render(target)
+            st.calls.append((ft, [render(a) for a in allargs], {k: render(v) for k, v in allkw.items()}, node.lineno, node))
+            st.events.append(('call', ft, [render(a) for a in allargs], {k: render(v) for k, v in allkw.items()}, node.lineno))
+            return Sym('%s(%s)' % (ft, self._argtext(allargs, allkw)))
         # ---- method calls on interpreted values
         if isinstance(func, ast.Attribute):
             recv = self.ev(func.value, st)
@@ -1867,6 +2037,13 @@ class Frame(object):
                     o = kwargs.get('order', args[2] if len(args) > 2 else None)
                     return Bytes([('SYM', 'int_to_bytes(%s, %s, %s)' % (render(args[0]), render(w), render(o)))])
                 return Bytes([('INT', render(w), render(args[0]))])
+            if meth == 'to_bytes' and self.sc.extended and not isinstance(recv, (Bytes, ListV, Obj, Hasher)):
+                # <int>.to_bytes(n, 'big') is the n-octet big-endian integer, the same term int_to_bytes(x, n) denotes
+                ln = args[0] if args else kwargs.get('length')
+                bo = args[1] if len(args) > 1 else kwargs.get('byteorder', Const('big') if ln is not None else None)
+                if ln is not None and isinstance(bo, Const) and bo.value == 'big' and len(args) <= 2 and set(kwargs) <= {'length', 'byteorder'}:
+                    record(ftext)
+                    return Bytes([('INT', render(ln), render(recv))])
             if isinstance(recv, Const) and type(recv.value) in (str, bytes) and meth in PURE_STR_METHODS and not kwargs and \
                     all(isinstance(a, Const) and type(a.value) in (str, bytes, int, tuple) for a in args):
                 try:     # constant folding of a pure text method on a literal (scenario-given keys such as 'h_Issuer')
@@ -1880,7 +2057,10 @@ class Frame(object):
                     record(ftext)
                     return Const(None)
                 if meth == 'extend' and len(args) == 1:
-                    tgt.items.extend(as_items(args[0]))
+                    if isinstance(args[0], ListV) and not any(isinstance(e, EachV) for e in args[0].elems):
+                        tgt.items.extend(('BYTE', render(e)) for e in args[0].elems)
+                    else:
+                        tgt.items.extend(as_items(args[0]))
                     record(ftext)
                     return Const(None)
             if isinstance(recv, Hasher):
@@ -1917,6 +2097,11 @@ class Frame(object):
                     recv.elems.append(args[0])
                     record(ftext)
                     return Const(None)
+            if isinstance(recv, DictV) and self.sc.extended and meth == 'get' and 1 <= len(args) <= 2 and not kwargs:
+                hit = recv.lookup(args[0])
+                if hit is not False:
+                    record(ftext)
+                    return hit if hit is not None else (args[1] if len(args) == 2 else Const(None))
             if isinstance(recv, Bytes) and meth == 'join' and len(args) == 1:
                 record(ftext)
                 if isinstance(args[0], ListV) and not merge_consts(recv.items):
@@ -1979,11 +2164,6 @@ class Frame(object):
                     if r is not None:
                         return r
                     return Sym('%s.%s(%s)' % (recv.ci.name, meth, ', '.join(render(a) for a in args)))
-            if isinstance(recv, DictV) and meth == 'get' and 1 <= len(args) <= 2 and not kwargs:
-                hit = dict_lookup(recv, args[0], st) if self.sc.tables else None
-                if hit is not None:          # constant key among constant keys: the lookup is decided
-                    record(ftext)
-                    return hit[1] if hit[0] else (args[1] if len(args) == 2 else Const(None))
             # self.m(...) / obj.m(...) with a known class
             cls = recv.cls if isinstance(recv, (Sym, Obj)) else None
             if cls is not None:
@@ -2011,12 +2191,13 @@ class Frame(object):
                 if r is not None:
                     return r
                 return Sym('%s(%s)' % (n, self._argtext(args, kwargs)))
-            if isinstance(callee, ClassV) and n not in self.fi.params:
+            if isinstance(callee, ClassV) and (n not in self.fi.params or self.sc.canonical_objs):
                 # a local (not a parameter such as `cls`) bound to a class (k = A if c else B; k()): the call constructs that class
                 record(callee.ci.name)
                 return self._construct(callee.ci, args, kwargs, st, node)
-            if isinstance(callee, Sym) and callee.text != n and re.match(r'^[\w.()]+$', callee.text):
-                # a local that holds a callable value (bound method, function reference): the call is a call of that value
+            if isinstance(callee, Sym) and callee.text != n and \
+                    (re.match(r'^[\w.()<>#]+$', callee.text) or (re.match(r'^[A-Za-z_][\w.]*\(.*\)$', callee.text) and _balanced(callee.text))):
+                # a local that holds a callable value (bound method, function reference, looked-up class): the call is a call of that value
                 record(callee.text)
                 if callee.text.endswith('.int_to_bytes') and args and len(args) <= 2 and set(kwargs) <= {'minlen'}:
                     w = args[1] if len(args) > 1 else kwargs.get('minlen', Const(1))       # the modelled bound method held in a local
@@ -2045,6 +2226,11 @@ class Frame(object):
                     return Bytes([('REP', [('C', b'\x00')], a.text)])      # bytes(i), i an index of a range: i zero octets
                 if isinstance(a, Const) and isinstance(a.value, int):
                     return Bytes([('REP', [('C', b'\x00')], render(a))])
+                mz = re.match(r'^\(\[0\] \* (.+)\)$', a.text) if isinstance(a, Sym) else None
+                if mz and _balanced(mz.group(1)):
+                    return Bytes([('REP', [('C', b'\x00')], mz.group(1))])         # bytes([0] * n)
+                if isinstance(a, Sym) and re.search(r' (//|>>|<<) ', _toplevel(_strip_parens(a.text))):
+                    return Bytes([('REP', [('C', b'\x00')], a.text)])      # an integer-valued expression: that many zero octets
                 return Bytes([('SYM', a.text if isinstance(a, Sym) else render(a))])
             if n == 'len' and len(args) == 1:
                 record(n)
@@ -2102,6 +2288,19 @@ class Frame(object):
             if n in ('iter', 'list', 'tuple') and len(args) == 1 and isinstance(args[0], EachV) and not kwargs:
                 record(n)
                 return args[0]
+            if n == 'zip' and len(args) == 2 and not kwargs and all(isinstance(a, ListV) for a in args) and \
+                    len(args[0].elems) == len(args[1].elems) and n not in st.env:
+                record(n)
+                zv = ListV([ListV([a, b], 'tuple') for a, b in zip(args[0].elems, args[1].elems)], 'list')
+                zv.zipped = list(zip(args[0].elems, args[1].elems))
+                return zv
+            if n in ('list', 'tuple') and len(args) == 1 and isinstance(args[0], ListV) and not kwargs and n not in st.env:
+                record(n)
+                return ListV(list(args[0].elems), n)
+            if n == 'sum' and len(args) == 1 and not kwargs and isinstance(args[0], EachV) and len(args[0].elems) == 1 and \
+                    isinstance(args[0].elems[0], Sym) and args[0].elems[0].text == args[0].var and ' if ' not in args[0].coll:
+                record(n)
+                return Sym('sum(%s)' % args[0].coll)        # sum(x for x in coll) is sum(coll)
             if n == 'filter' and len(args) == 2 and not kwargs:
                 fv = self._filter_each(node, args, st)
                 if fv is not None:
@@ -2133,6 +2332,13 @@ class Frame(object):
                 for e in reversed(args[0].elems):
                     rev.append(EachV(e.var, 'reversed(%s)' % e.coll, e.elems) if isinstance(e, EachV) else e)
                 return ListV(rev, args[0].kind)
+            if callee is None and isinstance(self.module.assigns.get(n), ast.Lambda):
+                lv = self.ev_Lambda(self.module.assigns[n], State())
+                if isinstance(lv, LambdaV):
+                    record(n)
+                    r = self._maybe_inline(lv.fi, None, args, kwargs, st, node, closure=lv.closure_env, force=True)
+                    if r is not None:
+                        return r
             r = self.prog.lookup(self.module, n)
             if isinstance(r, ClassInfo):
                 record(n)
@@ -2150,6 +2356,11 @@ class Frame(object):
         if isinstance(fv, ClassV):          # (a or B)() / (A if c else B)() once the callee expression is decided to be a class
             record(fv.ci.name)
             return self._construct(fv.ci, args, kwargs, st, node)
+        if isinstance(fv, (LambdaV, FuncV)):
+            record(render(fv))
+            r = self._maybe_inline(fv.fi, None, args, kwargs, st, node, closure=fv.closure_env, force=True)
+            if r is not None:
+                return r
         ftext = render(fv)
         record(ftext)
         return Sym('%s(%s)' % (ftext, self._argtext(args, kwargs)))
@@ -2459,7 +2670,20 @@ OPS = {ast.Add: '+', ast.Sub: '-', ast.Mult: '*', ast.Div: '/', ast.FloorDiv: '/
        ast.Eq: '==', ast.NotEq: '!=', ast.Lt: '<', ast.LtE: '<=', ast.Gt: '>', ast.GtE: '>=', ast.Is: 'is',
        ast.IsNot: 'is not', ast.In: 'in', ast.NotIn: 'not in'}
 
+STDLIB_CANON = {'os', 'zlib', 'bz2', 'binascii', 'hashlib', 'functools', 'operator', 'itertools'}
+
+OPERATOR_FUNCS = {'add': ast.Add, 'sub': ast.Sub, 'mul': ast.Mult, 'floordiv': ast.FloorDiv, 'mod': ast.Mod, 'lshift': ast.LShift,
+                  'rshift': ast.RShift, 'or_': ast.BitOr, 'and_': ast.BitAnd, 'xor': ast.BitXor, 'pow': ast.Pow}
+
+
+def _small_pow(a, b):
+    if isinstance(a, int) and isinstance(b, int) and 0 <= b <= 64 and abs(a) <= 65536:
+        return a ** b
+    raise ValueError('not folded')
+
+
 PYOPS = {ast.Sub: lambda a, b: a - b, ast.Mult: lambda a, b: a * b, ast.FloorDiv: lambda a, b: a // b,
          ast.Mod: lambda a, b: a % b, ast.LShift: lambda a, b: a << b, ast.RShift: lambda a, b: a >> b,
          ast.BitOr: lambda a, b: a | b, ast.BitAnd: lambda a, b: a & b, ast.BitXor: lambda a, b: a ^ b,
-         ast.Add: lambda a, b: a + b}
+         ast.Add: lambda a, b: a + b,
+         ast.Pow: lambda a, b: _small_pow(a, b)}
